@@ -1,6 +1,6 @@
 (* C14, fractional part: the six-digit decimal path of check_convert_value
    in exact rational arithmetic (Q). *)
-From Coq Require Import List NArith ZArith Bool Lia ZifyN ZifyBool QArith Qabs Qpower Lqa.
+From Coq Require Import List NArith ZArith Bool Lia ZifyN ZifyBool QArith Qabs Qpower Qminmax Lqa.
 From AHK Require Import Lib.Res Model.Convert Proofs.ConvertInt Proofs.ConvertDec Proofs.ConvertDiv Proofs.ConvertQ.
 Local Open Scope Q_scope.
 
@@ -53,4 +53,275 @@ Proof.
     rewrite p10_Z by lia. rewrite L1.
     replace (dexp a - dexp b - sh)%Z with ((dexp a - dexp b) + - sh)%Z by lia. rewrite p10_add.
     rewrite <- QC. ring.
+Qed.
+
+Lemma near_scale : forall x y c, 0 < c -> near (x * c) (y * c) -> near x y.
+Proof.
+  intros x y c Hc H. unfold near in *.
+  assert (E1 : y * c - x * c == (y - x) * c) by ring. rewrite E1 in H.
+  rewrite !Qabs_Qmult in H. rewrite (Qabs_pos c) in H by (apply Qlt_le_weak; exact Hc).
+  rewrite Qmult_assoc in H. apply Qmult_le_r in H; assumption.
+Qed.
+
+Lemma at_exp_scale : forall x X e z, at_exp x X e -> at_exp (x * inject_Z z) (X * z) e.
+Proof. intros x X e z H. unfold at_exp in *. rewrite H, inject_Z_mult. ring. Qed.
+
+Lemma sgz_abs : forall s z, Z.abs (sgz s * z) = Z.abs z.
+Proof. intros s z. unfold sgz. destruct s; lia. Qed.
+
+Lemma scoef_mkdec : forall s c e, scoef (mkDec s c e) = (sgz s * Z.of_N c)%Z.
+Proof. intros. apply scoef_sgz. Qed.
+
+(* Decimal.__truediv__ with precision 6 / ROUND_HALF_UP is correctly rounded *)
+Lemma ddiv6_rnd : forall a b, dcoef b <> 0%N ->
+  exists q, ddiv ctx6 a b = Some q /\ rnd6 (dval a / dval b) (dval q).
+Proof.
+  intros a b Hb.
+  destruct (N.eq_dec (dcoef a) 0) as [Ha|Ha].
+  - unfold ddiv. destruct (dcoef b =? 0)%N eqn:Eb; [lia|]. rewrite Ha. simpl (0 =? 0)%N. cbv iota.
+    eexists. split; [reflexivity|]. apply dfix6_rnd.
+    unfold dval. rewrite !scoef_sgz. cbn [dcoef dneg dexp]. rewrite Ha. simpl Z.of_N. rewrite !Z.mul_0_r.
+    unfold Qdiv. rewrite !Qmult_0_l. reflexivity.
+  - rewrite (ddiv_unfold ctx6 a b Ha Hb). eexists. split; [reflexivity|].
+    assert (QS := quot_scaled a b Ha Hb).
+    destruct (div_operands ctx6 a b Ha Hb) as [Hden Hnum].
+    change (10 ^ Z.of_N (cprec ctx6))%Z with 1000000%Z in Hnum.
+    set (num := dnum ctx6 a b) in *. set (den := dden ctx6 a b) in *.
+    set (sign := xorb (dneg a) (dneg b)) in *.
+    set (e := (dexp a - dexp b - dshift ctx6 a b)%Z) in *.
+    set (Qv := dval a / dval b) in *.
+    assert (Hdq : 0 < inject_Z (Z.of_N den)) by (rewrite <- (Zlt_Qlt 0); exact Hden).
+    assert (Hdq0 : ~ inject_Z (Z.of_N den) == 0) by (apply injZ_neq0; lia).
+    assert (Hdm := N.div_mod num den ltac:(lia)).
+    destruct (num mod den =? 0)%N eqn:Er.
+    + (* exact quotient *)
+      apply dfix6_rnd.
+      destruct (strip0_spec (S (N.to_nat (N.log2 (num / den)))) (num / den)%N e (dexp a - dexp b)) as [S1 S2].
+      set (st := strip0 _ _ _ _) in *.
+      apply (Qmult_inj_r _ _ _ Hdq0).
+      assert (HD := dval_sval (mkDec sign (fst st) (snd st)) e ltac:(cbn [dexp]; lia)).
+      unfold sval in HD. cbn [dexp] in HD. rewrite scoef_mkdec in HD.
+      apply (at_exp_scale _ _ _ (Z.of_N den)) in HD.
+      apply (proj2 (at_exp_eq _ _ _ _ _ QS HD)).
+      replace (sgz sign * Z.of_N (fst st) * 10 ^ (snd st - e) * Z.of_N den)%Z
+        with (sgz sign * ((Z.of_N (fst st) * 10 ^ (snd st - e)) * Z.of_N den))%Z by ring.
+      rewrite S2. f_equal.
+      assert (H0 : (num mod den = 0)%N) by lia. rewrite H0 in Hdm. lia.
+    + (* inexact quotient *)
+      assert (Hr : (num mod den <> 0)%N) by lia.
+      destruct (div_inexact a b Ha Hb Hr sign e) as [k [He [Hs Hb6]]].
+      fold num den in Hb6, He, Hs |- *.
+      set (D := dfix ctx6 _) in *.
+      assert (HD := dval_sval D e ltac:(lia)). unfold sval in HD. rewrite He in HD.
+      replace (e + Z.of_N k - e)%Z with (Z.of_N k) in HD by lia.
+      rewrite scoef_sgz, Hs in HD.
+      apply (at_exp_scale _ _ _ (Z.of_N den)) in HD.
+      split.
+      * apply (near_scale _ _ _ Hdq). apply (near_Z _ _ _ _ _ QS HD).
+        rewrite sgz_abs.
+        replace (sgz sign * Z.of_N (dcoef D) * 10 ^ Z.of_N k * Z.of_N den - sgz sign * Z.of_N num)%Z
+          with (sgz sign * (Z.of_N (dcoef D) * 10 ^ Z.of_N k * Z.of_N den - Z.of_N num))%Z by ring.
+        rewrite sgz_abs. rewrite (Z.abs_eq (Z.of_N num)) by lia. exact Hb6.
+      * intros [n [t [Hn Hnt]]]. exfalso.
+        apply (at_exp_scale _ _ _ (Z.of_N den)) in Hnt.
+        destruct (Z_le_gt_dec e t) as [L|G].
+        -- assert (H1 := at_exp_lower _ _ _ e Hnt L).
+           assert (E1 := proj1 (at_exp_eq _ _ _ _ _ QS H1) (Qeq_refl _)).
+           apply Hr. apply N2Z.inj. rewrite N2Z.inj_mod. simpl Z.of_N.
+           assert (E2 : (Z.of_N num = (sgz sign * n * 10 ^ (t - e)) * Z.of_N den)%Z).
+           { unfold sgz in *. destruct sign; lia. }
+           rewrite E2. apply Z.mod_mul. lia.
+        -- assert (H1 := at_exp_lower _ _ _ t QS ltac:(lia)).
+           assert (E1 := proj1 (at_exp_eq _ _ _ _ _ H1 Hnt) (Qeq_refl _)).
+           assert (P := ConvertInt.p10_pos (e - t) ltac:(lia)).
+           assert (E2 : (Z.of_N num * 10 ^ (e - t) = Z.abs n * Z.of_N den)%Z).
+           { assert (A : Z.abs (sgz sign * Z.of_N num * 10 ^ (e - t)) = Z.abs (n * Z.of_N den)) by (rewrite E1; reflexivity).
+             rewrite <- Z.mul_assoc, sgz_abs in A. rewrite !Z.abs_mul in A.
+             rewrite (Z.abs_eq (Z.of_N num)), (Z.abs_eq (10 ^ _)), (Z.abs_eq (Z.of_N den)) in A by lia. exact A. }
+           nia.
+Qed.
+
+(* ------------------------------------------------------------------ *)
+(* offset + ((val - offset) / min_step).to_integral_value() * min_step  *)
+(* ------------------------------------------------------------------ *)
+
+Lemma snap_dec_rnd : forall c off s, dcoef s <> 0%N ->
+  exists res d q m,
+    snap_dec c off s = Ok res /\
+    rnd6 (dval c - dval off) d /\
+    rnd6 (d / dval s) q /\
+    rnd6 (inject_Z (rhaQ q) * dval s) m /\
+    rnd6 (dval off + m) (dval res).
+Proof.
+  intros c off s Hs. unfold snap_dec.
+  destruct (ddiv6_rnd (dsub ctx6 c off) s Hs) as [qd [Hq Hr]]. rewrite Hq.
+  eexists. exists (dval (dsub ctx6 c off)), (dval qd), (dval (dmul ctx6 (to_integral HalfUp qd) s)).
+  split; [reflexivity|]. split; [apply dsub6_rnd|]. split; [exact Hr|]. split.
+  - apply (rnd6_compat (dval (to_integral HalfUp qd) * dval s) (inject_Z (rhaQ (dval qd)) * dval s)
+                        (dval (dmul ctx6 (to_integral HalfUp qd) s)) (dval (dmul ctx6 (to_integral HalfUp qd) s))).
+    + rewrite to_integral_Q. reflexivity.
+    + reflexivity.
+    + apply dmul6_rnd.
+  - apply dadd6_rnd.
+Qed.
+
+Lemma snap_dec_exact : forall c off s, dcoef s <> 0%N ->
+  let r := rhaQ ((dval c - dval off) / dval s) in
+  rep6 (dval c - dval off) -> rep6 ((dval c - dval off) / dval s) ->
+  rep6 (inject_Z r * dval s) -> rep6 (dval off + inject_Z r * dval s) ->
+  exists res, snap_dec c off s = Ok res /\ dval res == dval off + inject_Z r * dval s.
+Proof.
+  intros c off s Hs r R1 R2 R3 R4.
+  destruct (snap_dec_rnd c off s Hs) as [res [d [q [m [H0 [[_ H1] [[_ H2] [[_ H3] [_ H4]]]]]]]]].
+  exists res. split; [exact H0|].
+  assert (E1 : d == dval c - dval off) by (apply H1; exact R1).
+  assert (E2 : q == (dval c - dval off) / dval s).
+  { rewrite <- E1. apply H2. apply (rep6_compat ((dval c - dval off) / dval s)); [rewrite E1; reflexivity|exact R2]. }
+  assert (Er : rhaQ q = r) by (apply rhaQ_compat; exact E2).
+  assert (E3 : m == inject_Z r * dval s).
+  { rewrite <- Er. apply H3. rewrite Er. exact R3. }
+  rewrite <- E3. apply H4. apply (rep6_compat (dval off + inject_Z r * dval s)); [rewrite E3; reflexivity|exact R4].
+Qed.
+
+(* ------------------------------------------------------------------ *)
+(* comparison, max/min, clamp in Q                                      *)
+(* ------------------------------------------------------------------ *)
+
+Lemma dcompare_Q : forall a b, dcompare a b = (dval a ?= dval b).
+Proof.
+  intros a b. unfold dcompare. set (e := Z.min (dexp a) (dexp b)).
+  assert (Ha := dval_sval a e ltac:(unfold e; lia)).
+  assert (Hb := dval_sval b e ltac:(unfold e; lia)).
+  destruct (Z.compare_spec (sval a e) (sval b e)) as [E|L|G]; symmetry.
+  - apply Qeq_alt. apply (proj2 (at_exp_eq _ _ _ _ _ Ha Hb)). exact E.
+  - apply Qlt_alt. apply Qnot_le_lt. intro C. apply (proj1 (at_exp_le _ _ _ _ _ Hb Ha)) in C. lia.
+  - apply Qgt_alt. apply Qnot_le_lt. intro C. apply (proj1 (at_exp_le _ _ _ _ _ Ha Hb)) in C. lia.
+Qed.
+
+Lemma py_max_Q : forall a b, dval (py_max a b) == Qmax (dval a) (dval b).
+Proof.
+  intros a b. unfold py_max. rewrite dcompare_Q.
+  destruct (Qcompare_spec (dval b) (dval a)) as [E|L|G].
+  - symmetry. apply Q.max_l. rewrite E. apply Qle_refl.
+  - symmetry. apply Q.max_l. apply Qlt_le_weak. exact L.
+  - symmetry. apply Q.max_r. apply Qlt_le_weak. exact G.
+Qed.
+
+Lemma py_min_Q : forall a b, dval (py_min a b) == Qmin (dval a) (dval b).
+Proof.
+  intros a b. unfold py_min. rewrite dcompare_Q.
+  destruct (Qcompare_spec (dval b) (dval a)) as [E|L|G].
+  - symmetry. apply Q.min_l. rewrite E. apply Qle_refl.
+  - symmetry. apply Q.min_r. apply Qlt_le_weak. exact L.
+  - symmetry. apply Q.min_l. apply Qlt_le_weak. exact G.
+Qed.
+
+Definition clampQ (omin omax : option Q) (v : Q) : Q :=
+  let v1 := match omin with Some m => Qmax m v | None => v end in
+  match omax with Some M => Qmin M v1 | None => v1 end.
+
+Lemma clamp_Q : forall omin omax v,
+  dval (clamp omin omax v) == clampQ (option_map dval omin) (option_map dval omax) (dval v).
+Proof.
+  intros omin omax v. unfold clamp, clampQ.
+  destruct omax as [M|], omin as [m|]; simpl.
+  - rewrite py_min_Q, py_max_Q. reflexivity.
+  - rewrite py_min_Q. reflexivity.
+  - rewrite py_max_Q. reflexivity.
+  - reflexivity.
+Qed.
+
+Definition offQ (omin : option dec) : Q := match omin with Some m => dval m | None => 0 end.
+
+Lemma dzero_val : dval dzero == 0.
+Proof. reflexivity. Qed.
+
+(* ------------------------------------------------------------------ *)
+(* the float format                                                      *)
+(* ------------------------------------------------------------------ *)
+
+Lemma float_step_unfold : forall omin omax s str v, dcoef s <> 0%N ->
+  check_convert FFloat omin omax (Some s) str (RFin v) =
+  rbind (snap_dec (clamp omin omax v) (match omin with Some m => m | None => dzero end) s)
+        (fun v3 => Ok (VDec v3)).
+Proof.
+  intros omin omax s str v Hs. simpl. unfold convert_number.
+  destruct (dcoef s =? 0)%N eqn:E; [lia|]. unfold snap. simpl. reflexivity.
+Qed.
+
+Lemma off_val : forall omin, dval (match omin with Some m => m | None => dzero end) == offQ omin.
+Proof. intros [m|]; reflexivity. Qed.
+
+Lemma float_six_digits_lemma : forall omin omax s str v, dcoef s <> 0%N ->
+  let C := clampQ (option_map dval omin) (option_map dval omax) (dval v) in
+  let O := offQ omin in
+  exists res d q m,
+    check_convert FFloat omin omax (Some s) str (RFin v) = Ok (VDec res) /\
+    rnd6 (C - O) d /\ rnd6 (d / dval s) q /\ rnd6 (inject_Z (rhaQ q) * dval s) m /\ rnd6 (O + m) (dval res).
+Proof.
+  intros omin omax s str v Hs C O. rewrite float_step_unfold by assumption.
+  destruct (snap_dec_rnd (clamp omin omax v) (match omin with Some m => m | None => dzero end) s Hs)
+    as [res [d [q [m [H0 [H1 [H2 [H3 H4]]]]]]]].
+  exists res, d, q, m. rewrite H0. split; [reflexivity|].
+  split; [|split; [exact H2|split; [exact H3|]]].
+  - apply (rnd6_compat _ (C - O) d d) in H1; [exact H1| |reflexivity].
+    unfold C, O. rewrite clamp_Q, off_val. reflexivity.
+  - apply (rnd6_compat _ (O + m) _ (dval res)) in H4; [exact H4| |reflexivity].
+    unfold O. rewrite off_val. reflexivity.
+Qed.
+
+Lemma float_exact_small_lemma : forall omin omax s str v, dcoef s <> 0%N ->
+  let C := clampQ (option_map dval omin) (option_map dval omax) (dval v) in
+  let O := offQ omin in
+  let r := rhaQ ((C - O) / dval s) in
+  rep6 (C - O) -> rep6 ((C - O) / dval s) -> rep6 (inject_Z r * dval s) -> rep6 (O + inject_Z r * dval s) ->
+  exists res, check_convert FFloat omin omax (Some s) str (RFin v) = Ok (VDec res) /\
+              dval res == O + inject_Z r * dval s.
+Proof.
+  intros omin omax s str v Hs C O r R1 R2 R3 R4. rewrite float_step_unfold by assumption.
+  set (c := clamp omin omax v). set (off := match omin with Some m => m | None => dzero end).
+  assert (EC : dval c == C) by (unfold c, C; apply clamp_Q).
+  assert (EO : dval off == O) by (unfold off, O; apply off_val).
+  assert (Eq : (dval c - dval off) / dval s == (C - O) / dval s) by (rewrite EC, EO; reflexivity).
+  assert (Er : rhaQ ((dval c - dval off) / dval s) = r) by (apply rhaQ_compat; exact Eq).
+  destruct (snap_dec_exact c off s Hs) as [res [H0 H1]].
+  - apply (rep6_compat (C - O)); [rewrite EC, EO; reflexivity|exact R1].
+  - apply (rep6_compat ((C - O) / dval s)); [symmetry; exact Eq|exact R2].
+  - rewrite Er. exact R3.
+  - rewrite Er. apply (rep6_compat (O + inject_Z r * dval s)); [rewrite EO; reflexivity|exact R4].
+  - exists res. rewrite H0. split; [reflexivity|]. rewrite H1, Er, EO. reflexivity.
+Qed.
+
+(* no step: the clamped value itself is handed to float() *)
+Lemma float_nostep_lemma : forall omin omax str v,
+  exists res, check_convert FFloat omin omax None str (RFin v) = Ok (VDec res) /\
+              dval res == clampQ (option_map dval omin) (option_map dval omax) (dval v).
+Proof. intros. eexists. split; [reflexivity|]. apply clamp_Q. Qed.
+
+(* what the tolerance means: each of the four roundings moves its operand by
+   at most 5e-6 of its magnitude *)
+Lemma near_bound : forall x y, near x y -> Qabs (y - x) <= (5 # 1000000) * Qabs x.
+Proof. intros x y H. assert (E : (5 # 1000000) == eps6) by reflexivity. rewrite E. exact H. Qed.
+
+(* rhaQ rounds to a nearest integer, ties away from zero *)
+Lemma rhaQ_nearest : forall x k, Qabs (x - inject_Z (rhaQ x)) <= Qabs (x - inject_Z k).
+Proof.
+  intros [n d] k. unfold rhaQ. cbn [Qnum Qden].
+  assert (H := rhaz_nearest n (Zpos d) k ltac:(lia)).
+  unfold Qabs, Qminus, Qplus, Qopp, inject_Z, Qle. cbn [Qnum Qden].
+  rewrite !Z.mul_1_r. rewrite Pos.mul_1_r.
+  replace (n * 1 + - rhaz n (Z.pos d) * Z.pos d)%Z with (n - rhaz n (Z.pos d) * Z.pos d)%Z by ring.
+  replace (n * 1 + - k * Z.pos d)%Z with (n - k * Z.pos d)%Z by ring.
+  apply Z.mul_le_mono_nonneg_r; [lia|lia].
+Qed.
+
+Lemma decimal_ops_lemma : forall a b,
+  rnd6 (dval a + dval b) (dval (dadd ctx6 a b)) /\
+  rnd6 (dval a - dval b) (dval (dsub ctx6 a b)) /\
+  rnd6 (dval a * dval b) (dval (dmul ctx6 a b)) /\
+  (dcoef b <> 0%N -> exists q, ddiv ctx6 a b = Some q /\ rnd6 (dval a / dval b) (dval q)) /\
+  dval (to_integral HalfUp a) == inject_Z (rhaQ (dval a)).
+Proof.
+  intros a b. split; [apply dadd6_rnd|]. split; [apply dsub6_rnd|]. split; [apply dmul6_rnd|].
+  split; [apply ddiv6_rnd|apply to_integral_Q].
 Qed.
